@@ -34,10 +34,10 @@ CONSTANTS
   Dom2(_),       \* argument domain for the offsets of device-to-device copies
   WrapAt,        \* offsets into the host array at which wrapMemory is tried
   Mode,          \* "all": every argument tuple is a successor; "sim": random picks (simulation)
-  Prefix,        \* scripted commands executed first (shape coverage); <<>> = none
-  MaxHist,       \* behaviours are emitted and cut at this length (generation runs)
-  Progress,      \* TRUE: every call but the last of a behaviour must change the state (generation:
-                 \* histories with a no-op/error in front are covered by the shorter histories)
+  Prefixes,      \* set of scripted command sequences executed first (shape coverage); {<<>>} = none
+  Depth,         \* a behaviour is emitted and cut Depth calls after its scripted prefix (0 = keep no history)
+  Progress,      \* TRUE: a call that changes nothing (error, no-op, read) ends its behaviour -- histories
+                 \* that continue after such a call are covered by the shorter history without it
   MaxErr         \* at most this many "error" steps per behaviour (-1 = unbounded)
 
 VARIABLES
@@ -183,6 +183,10 @@ EffD2D(c) ==
            data == ReadB(mem, ws.st, ws.off + c.z * ws.esz, b)     \* snapshot, then write
        IN Ok(view, WriteB(mem, wd.st, wd.off + c.x * wd.esz, data), <<>>)
 
+\* the caller writes y bytes into its own host array at x (no OCCA call): every view that wraps
+\* these bytes must show them
+EffHostPoke(c) == Ok(view, WriteB(mem, 0, c.x, SubSeq(c.pat, 1, c.y)), <<>>)
+
 \* v.free()
 EffFree(c) ==
   IF c.v = 0 \/ ~V(c.v).init THEN Noop
@@ -198,6 +202,7 @@ Eff(c) == CASE c.a = "Malloc"     -> EffMalloc(c)
             [] c.a = "D2H"        -> EffD2H(c)
             [] c.a = "D2D"        -> EffD2D(c)
             [] c.a = "Free"       -> EffFree(c)
+            [] c.a = "HostPoke"   -> EffHostPoke(c)
 
 \* calls that put their result into slot t / need a fresh device store
 Creates(c)    == c.a \in {"Malloc", "MallocFrom", "Wrap", "Slice", "Offset", "Cast", "Clone"}
@@ -205,6 +210,7 @@ NeedsStore(c) == c.a \in {"Malloc", "MallocFrom", "Clone"}
 WellFormed(c) == /\ Creates(c) => (c.t \in FreeSlots)
                  /\ NeedsStore(c) => HasStore
                  /\ c.a = "Wrap" => (c.x >= 0 /\ (c.y >= 0 => c.x + c.y * c.e <= Len(mem[0])))
+                 /\ c.a = "HostPoke" => (c.x >= 0 /\ c.y >= 1 /\ c.x + c.y <= Len(mem[0]) /\ c.y <= Len(c.pat))
 
 ---------------------------------------------------------------------------
 (* Observation: what every handle shows through the public API after a call *)
@@ -220,14 +226,14 @@ Do(c) ==
   /\ LET r == Eff(c)
          m2 == GC(r.view, r.mem) IN
        /\ (MaxErr >= 0 /\ r.res = "error") => NErr < MaxErr
-       /\ (Progress /\ Len(hist) < MaxHist - 1) => (r.view # view \/ m2 # mem)
        /\ view' = TLCEval(r.view)
        /\ mem' = TLCEval(m2)
        /\ k' = (k + 1) % NStamps
        /\ last' = [a |-> c.a, res |-> r.res, v |-> c.v, t |-> c.t]
-       /\ hist' = IF MaxHist = 0 THEN hist      \* design run: no history
+       /\ hist' = IF Depth = 0 THEN hist      \* design run: no history
                   ELSE Append(hist, TLCEval([c |-> c, res |-> r.res, rd |-> r.rd, kind |-> V(c.v).kind,
-                                             kind2 |-> V(c.w).kind, obs |-> Obs(r.view, m2)]))
+                                             kind2 |-> V(c.w).kind, chg |-> (r.view # view \/ m2 # mem),
+                                             obs |-> Obs(r.view, m2)]))
 
 ---------------------------------------------------------------------------
 (* Argument generation.  In "all" mode every tuple of the domain is a successor; in "sim" mode
@@ -243,6 +249,12 @@ PickArgs(S, P(_)) ==
     ELSE S
 
 ArgViews == {v \in 1..NViews : view[v].init} \cup {0}
+\* the handle a call is made on: any initialised handle or handle 0; in simulation a random one,
+\* an initialised handle five times as likely as handle 0
+PickH == IF Mode = "sim"
+           THEN {RandomElement(((ArgViews \ {0}) \X (1..5)) \cup {<<0, 0>>})[1]}
+           ELSE ArgViews
+Sometimes(n) == Mode = "sim" => RandomElement(1..n) = 1     \* thins an action out in simulation
 UDom == {-1, 2}                                      \* arguments tried on an uninitialised handle
 ADom(w)  == IF w.init THEN Dom(Elems(w))  ELSE UDom
 ADom2(w) == IF w.init THEN Dom2(Elems(w)) ELSE {0}
@@ -251,26 +263,26 @@ Cmd(a) == [C0 EXCEPT !.a = a, !.t = LowSlot, !.pat = PatSeq(k)]
 
 Malloc == \E e \in ESizes : \E a \in PickArgs(MallocDom(e) \X {0, 1}, LAMBDA a : a[1] >= 0) :
             Do([Cmd("Malloc") EXCEPT !.x = a[1], !.e = e, !.f = a[2]])
-MallocFrom == \E v \in PickV(ArgViews) : \E e \in ESizes :
+MallocFrom == \E v \in PickH : \E e \in ESizes :
               \E n \in PickArgs(MallocDom(e), LAMBDA n : n >= 0 /\ (V(v).init /\ Elems(V(v)) > 0 => n * e <= V(v).len)) :
                 Do([Cmd("MallocFrom") EXCEPT !.v = v, !.x = n, !.e = e])
 WrapArgs == {a \in WrapAt \X (-2..Len(mem[0])) \X ESizes : a[1] <= Len(mem[0]) /\ (a[2] >= 0 => a[1] + a[2] * a[3] <= Len(mem[0]))}
 Wrap == /\ Len(mem[0]) > 0
         /\ \E a \in PickArgs(WrapArgs, LAMBDA a : a[2] >= 0) :
              Do([Cmd("Wrap") EXCEPT !.x = a[1], !.y = a[2], !.e = a[3]])
-Slice == \E v \in PickV(ArgViews) :
+Slice == \E v \in PickH :
          \E a \in PickArgs(ADom(V(v)) \X ADom(V(v)), LAMBDA a : SliceOK(V(v), a[1], a[2])) :
            Do([Cmd("Slice") EXCEPT !.v = v, !.x = a[1], !.y = a[2]])
-Offset == \E v \in PickV(ArgViews) :
+Offset == \E v \in PickH :
           \E x \in PickArgs(ADom(V(v)), LAMBDA x : SliceOK(V(v), x, DEFAULT)) :
             Do([Cmd("Offset") EXCEPT !.v = v, !.x = x, !.y = DEFAULT])
-Cast == \E v \in PickV(ArgViews) : \E e \in PickV(ESizes) :
+Cast == \E v \in PickH : \E e \in PickV(ESizes) :
           Do([Cmd("Cast") EXCEPT !.v = v, !.e = e])
-Clone == \E v \in PickV(ArgViews) : Do([Cmd("Clone") EXCEPT !.v = v])
-H2D == \E v \in PickV(ArgViews) :
+Clone == \E v \in PickH : Do([Cmd("Clone") EXCEPT !.v = v])
+H2D == \E v \in PickH :
        \E a \in PickArgs(ADom(V(v)) \X ADom(V(v)), LAMBDA a : CopyOK(V(v), a[2], a[1])) :
          Do([Cmd("H2D") EXCEPT !.v = v, !.x = a[1], !.y = a[2]])
-D2H == \E v \in PickV(ArgViews) :
+D2H == \E v \in PickH :
        \E a \in PickArgs(ADom(V(v)) \X ADom(V(v)), LAMBDA a : CopyOK(V(v), a[2], a[1])) :
          Do([Cmd("D2H") EXCEPT !.v = v, !.x = a[1], !.y = a[2]])
 \* counts tried for a device-to-device copy: default, negative, 0, 1, the largest that fits and one more
@@ -287,17 +299,26 @@ D2DCnts(wd, ws, from, doff, soff) ==
      ELSE {DEFAULT, 1}
 D2DArgs(wd, ws, from) ==
   UNION {{<<x, z, y>> : y \in D2DCnts(wd, ws, from, x, z)} : x \in ADom2(wd), z \in ADom2(ws)}
-D2D == \E d \in PickV(ArgViews) : \E s \in PickV(ArgViews) : \E from \in PickV({0, 1}) :
+D2D == \E d \in PickH : \E s \in PickH : \E from \in PickV({0, 1}) :
        \E a \in PickArgs(D2DArgs(V(d), V(s), from), LAMBDA a : D2DOK(V(d), V(s), from, a[3], a[1], a[2])) :
          Do([Cmd("D2D") EXCEPT !.v = d, !.w = s, !.f = from, !.x = a[1], !.z = a[2], !.y = a[3]])
-Free == \E v \in PickV(ArgViews) : Do([Cmd("Free") EXCEPT !.v = v])
+Free == Sometimes(3) /\ \E v \in PickH : Do([Cmd("Free") EXCEPT !.v = v])
 
-\* scripted prefix (shape coverage): the next command of Prefix, with slot and data filled in
-Scripted == /\ Len(hist) < Len(Prefix)
-            /\ LET p == Prefix[Len(hist) + 1] IN
-                 Do([Cmd(p.a) EXCEPT !.v = p.v, !.w = p.w, !.x = p.x, !.y = p.y, !.z = p.z, !.e = p.e, !.f = p.f])
+\* only while some view wraps the host array (otherwise nothing can observe it through OCCA)
+HostPoke == /\ \E v \in 1..NViews : view[v].init /\ view[v].st = 0
+            /\ \E a \in PickV({b \in (0..Len(mem[0])) \X (1..MaxBytes) : b[1] + b[2] <= Len(mem[0]) /\ b[1] \in WrapAt \cup {1}}) :
+                 Do([Cmd("HostPoke") EXCEPT !.x = a[1], !.y = a[2]])
 
-Free_ == Len(hist) >= Len(Prefix)
+\* scripted prefixes (shape coverage).  The prefix a behaviour follows is recognised from its
+\* history (the prefixes differ in their first command).
+SameCmd(p, c) == /\ p.a = c.a /\ p.v = c.v /\ p.w = c.w /\ p.x = c.x /\ p.y = c.y /\ p.z = c.z
+                 /\ p.e = c.e /\ p.f = c.f
+Follows(p) == \A i \in 1..(IF Len(p) < Len(hist) THEN Len(p) ELSE Len(hist)) : SameCmd(p[i], hist[i].c)
+Scripted == \E p \in Prefixes :
+              /\ Len(hist) < Len(p) /\ Follows(p)
+              /\ LET q == p[Len(hist) + 1] IN
+                   Do([Cmd(q.a) EXCEPT !.v = q.v, !.w = q.w, !.x = q.x, !.y = q.y, !.z = q.z, !.e = q.e, !.f = q.f])
+Free_ == \E p \in Prefixes : Len(hist) >= Len(p) /\ Follows(p)
 Next == \/ Scripted
         \/ Free_ /\ Malloc
         \/ Free_ /\ MallocFrom
@@ -310,6 +331,7 @@ Next == \/ Scripted
         \/ Free_ /\ D2H
         \/ Free_ /\ D2D
         \/ Free_ /\ Free
+        \/ Free_ /\ HostPoke
 
 Init == /\ view = [v \in 1..NViews |-> Uninit]
         /\ mem = [s \in 0..NStores |-> IF s = 0 THEN HostInit ELSE <<>>]
@@ -363,6 +385,12 @@ CopiesKeepViews == [][last'.a \in {"H2D", "D2H", "D2D"} => view' = view]_vars
 \* design-run view: hide the history and the ghost field `kind`
 View == <<[v \in 1..NViews |-> [view[v] EXCEPT !.kind = ""]], mem, k>>
 
-\* generation: print every behaviour of length MaxHist once, and cut there
-Emit == Len(hist) < MaxHist \/ (PrintT(<<"B", ToJson(hist)>>) /\ FALSE)
+\* generation: print a behaviour once, and cut it there, when it is Depth calls past its prefix or
+\* (Progress) when its last call past the prefix changed nothing
+EmitNow == /\ hist # <<>>
+           /\ \E p \in Prefixes :
+                /\ Follows(p)
+                /\ \/ Len(hist) = Len(p) + Depth
+                   \/ Progress /\ Len(hist) > Len(p) /\ ~hist[Len(hist)].chg
+Emit == ~EmitNow \/ (PrintT(<<"B", ToJson(hist)>>) /\ FALSE)
 =============================================================================
